@@ -429,13 +429,15 @@ def _ema_grouped_timed(
     - beta = exp(-log(2) / (halflife / time_delta))
     - out[i] = (x[i] + residuals[k]) / (1 + residual_weights[k])
 
-    For the first observation in each group, no decay is applied (last_seen_times[k] == 0).
+    For the first observation in each group, no decay is applied (group_seen[k] is False).
     NaN values propagate the last valid EMA value for that group.
     """
     out = np.zeros_like(values, dtype="float64")
     residuals = np.zeros(ngroups, dtype="float64")
     residual_weights = np.zeros(ngroups, dtype="float64")
     last_seen_times = np.zeros(ngroups, dtype="int64")
+    # a timestamp may be zero or negative (1970 and before), so it cannot double as the flag
+    group_seen = np.zeros(ngroups, dtype="bool")
     last_seen = np.full(ngroups, np.nan, dtype="float64")
 
     masked = mask is not None
@@ -445,7 +447,7 @@ def _ema_grouped_timed(
             # null key: the row belongs to no group
             out[i] = np.nan
             continue
-        if last_seen_times[k] > 0:
+        if group_seen[k]:
             hl = (times[i] - last_seen_times[k]) / halflife
             beta = np.exp(-np.log(2) * hl)
             residuals[k] *= beta
@@ -459,6 +461,7 @@ def _ema_grouped_timed(
             residuals[k] += x
 
         last_seen_times[k] = times[i]
+        group_seen[k] = True
         last_seen[k] = out[i]
 
     return out
